@@ -1,8 +1,9 @@
 (* C13 — property theorems only (each closed by [exact]) + Print Assumptions.
    Over Scorch/Disk.v, for every event list accepted by [drun] from [dinit]. *)
-From Coq Require Import ZArith List.
+From Coq Require Import ZArith List Permutation Sorted.
 From Verif Require Import Scorch.Model Scorch.Disk
-  Scorch.ProofsDisk1 Scorch.ProofsDisk4 Scorch.ProofsDisk5 Scorch.ProofsDisk6.
+  Scorch.ProofsDisk1 Scorch.ProofsDisk4 Scorch.ProofsDisk5 Scorch.ProofsDisk6
+  Scorch.Retention Scorch.RetentionProofs Scorch.RetentionProofs2.
 Import ListNotations.
 Local Open Scope Z_scope.
 
@@ -40,3 +41,127 @@ Theorem C13_rollback_points_nonempty : forall evs d d',
   drun d evs = Some d' -> d_bolt d <> [] -> d_bolt d' <> [].
 Proof. exact rollback_points_nonempty. Qed.
 Print Assumptions C13_rollback_points_nonempty.
+
+(* ------------------------------------------------------------------------------------------
+   Retention arithmetic (Scorch/Retention.v: getLiveSnapshots, getTimeSeriesSnapshots,
+   getProtectedSnapshots, newCheckPoints, getBoundaryCheckPoint, removeOldBoltSnapshots):
+   "the list always includes the most recent persisted state and honours the configured number
+   of snapshots to keep".  Snapshot lists are newest first; [get_protected] is [None] only on an
+   empty live list (where Go would panic and which its caller excludes). *)
+
+(* the newest live snapshot is always protected — for every N, so in particular for N >= 1 *)
+Theorem C13_latest_protected : forall N interval latest rest p,
+  get_protected N interval (latest :: rest) = Some p ->
+  In (s_epoch latest) (map s_epoch p).
+Proof. exact latest_protected. Qed.
+Print Assumptions C13_latest_protected.
+
+Theorem C13_latest_protected_entry : forall N interval latest rest p,
+  NoDup (map s_epoch (latest :: rest)) ->
+  get_protected N interval (latest :: rest) = Some p -> In latest p.
+Proof. exact latest_protected_entry. Qed.
+Print Assumptions C13_latest_protected_entry.
+
+(* sampling interval 0: the protected set is exactly the newest min(N, available) live
+   snapshots (the latest one when N <= 0), in order *)
+Theorem C13_interval0_keeps_latest_n : forall N live,
+  live <> [] -> NoDup (map s_epoch live) ->
+  get_protected N 0 live = Some (firstn (Z.to_nat (Z.max 1 N)) live).
+Proof. exact interval0_keeps_latest_n. Qed.
+Print Assumptions C13_interval0_keeps_latest_n.
+
+(* ... and with interval <= 0 the live list itself is the newest N persisted snapshots *)
+Theorem C13_live_interval0 : forall N interval fbits cps now meta,
+  interval <= 0 -> 0 <= N ->
+  get_live N interval fbits cps now meta = Some (firstn (Z.to_nat N) meta).
+Proof. exact get_live_interval0. Qed.
+Print Assumptions C13_live_interval0.
+
+Theorem C13_protected_subset_live : forall N interval live p,
+  get_protected N interval live = Some p -> incl p live.
+Proof. exact protected_subset_live. Qed.
+Print Assumptions C13_protected_subset_live.
+
+(* never more than N protected (exactly one, the latest, when N <= 0) *)
+Theorem C13_protected_card_le : forall N interval live p,
+  get_protected N interval live = Some p -> Z.of_nat (length p) <= Z.max 1 N.
+Proof. exact protected_card_le. Qed.
+Print Assumptions C13_protected_card_le.
+
+(* and never fewer: exactly min (max 1 N) |live| of them, for every sampling interval *)
+Theorem C13_protected_card_eq : forall N interval live p,
+  NoDup (map s_epoch live) ->
+  get_protected N interval live = Some p ->
+  length p = Nat.min (Z.to_nat (Z.max 1 N)) (length live).
+Proof. exact protected_card_eq. Qed.
+Print Assumptions C13_protected_card_eq.
+
+(* removeOldBoltSnapshots' choice: epochsToRemove = eligible \ protected and
+   newEligible = eligible /\ protected, both in the order of s.eligibleForRemoval *)
+Theorem C13_purge_only_unprotected_eligible : forall prot eligible,
+  partition_eligible prot eligible =
+  (filter (fun e => negb (in_Z e (map s_epoch prot))) eligible,
+   filter (fun e => in_Z e (map s_epoch prot)) eligible).
+Proof. exact purge_only_unprotected_eligible. Qed.
+Print Assumptions C13_purge_only_unprotected_eligible.
+
+(* one whole purge (getLiveSnapshots at time [now], getProtectedSnapshots, the partition, the
+   bucket deletions): the most recent persisted state is never removed *)
+Theorem C13_purge_keeps_newest : forall N interval fbits now st st' n m0 rest,
+  remove_old N interval fbits now st = Some (st', n) ->
+  r_bolt st = m0 :: rest -> In m0 (r_bolt st').
+Proof. exact purge_keeps_newest. Qed.
+Print Assumptions C13_purge_keeps_newest.
+
+Theorem C13_purge_removes_only_eligible : forall N interval fbits now st st' n s,
+  remove_old N interval fbits now st = Some (st', n) ->
+  In s (r_bolt st) -> ~ In s (r_bolt st') -> In (s_epoch s) (r_eligible st).
+Proof. exact purge_removes_only_eligible. Qed.
+Print Assumptions C13_purge_removes_only_eligible.
+
+(* honours numSnapshotsToKeep: at least min (max 1 N) |live| rollback points survive a purge *)
+Theorem C13_purge_keeps_wanted : forall N interval fbits now st st' n,
+  NoDup (map s_epoch (r_bolt st)) ->
+  remove_old N interval fbits now st = Some (st', n) ->
+  exists live, get_live N interval fbits (r_cps st) now (r_bolt st) = Some live /\
+    (live = [] \/ (Nat.min (Z.to_nat (Z.max 1 N)) (length live) <= length (r_bolt st'))%nat).
+Proof. exact purge_keeps_wanted. Qed.
+Print Assumptions C13_purge_keeps_wanted.
+
+(* newCheckPoints leaves the order of equal time stamps to Go's map iteration; the only reader
+   of s.checkPoints cannot tell the difference *)
+Theorem C13_checkpoints_order_irrelevant : forall fbits p c ts,
+  Permutation c p -> StronglySorted ts_desc c ->
+  get_boundary fbits c ts = get_boundary fbits (new_checkpoints p) ts.
+Proof. exact checkpoints_order_irrelevant. Qed.
+Print Assumptions C13_checkpoints_order_irrelevant.
+
+(* monotonicity of the time-series sampling.
+   (1) it walks from the oldest snapshot towards the newest and never goes back *)
+Theorem C13_time_series_oldest_to_newest : forall maxp interval snaps,
+  exists idxs, time_series maxp interval snaps = map (nth_snap snaps) idxs /\ decreasing idxs /\
+               Forall (fun i => (i < length snaps)%nat) idxs.
+Proof. exact time_series_oldest_to_newest. Qed.
+Print Assumptions C13_time_series_oldest_to_newest.
+
+(* (2) one more data point extends the series at its end, by at most one snapshot *)
+Theorem C13_time_series_mono_points : forall m interval snaps,
+  exists ext, time_series (m + 1) interval snaps = time_series m interval snaps ++ ext
+              /\ (length ext <= 1)%nat.
+Proof. exact time_series_mono_points. Qed.
+Print Assumptions C13_time_series_mono_points.
+
+(* (3) raising numSnapshotsToKeep never drops a rollback point that was protected before *)
+Theorem C13_protected_mono_N : forall N interval live p p',
+  get_protected N interval live = Some p -> get_protected (N + 1) interval live = Some p' ->
+  incl (map s_epoch p) (map s_epoch p').
+Proof. exact protected_mono_N. Qed.
+Print Assumptions C13_protected_mono_N.
+
+(* (4) REFUTED: sampled points need not be a sampling interval apart (the older neighbour of an
+   overshoot lies inside the interval) — witness: interval 10, stamps 20, 8, 0 *)
+Theorem C13_sampling_spacing_refuted : exists maxp interval snaps,
+  0 < interval /\ ts_sorted snaps /\ NoDup (map s_epoch snaps) /\
+  ~ spaced interval (time_series maxp interval snaps).
+Proof. exact sampling_spacing_refuted. Qed.
+Print Assumptions C13_sampling_spacing_refuted.
